@@ -23,11 +23,30 @@ def _match_call(pr, c, m):
     return True
 
 
+def _root_local(pr, o, hops=0):
+    """The local an operand is a plain copy of (through moves / copies / integer casts), or None."""
+    if o["k"] not in ("copy", "move") or o["place"]["proj"]:
+        return None
+    l = o["place"]["local"]
+    ds = pr.defs.get(l, [])
+    if hops < 8 and len(ds) == 1 and ds[0][1] != "t" and len(ds[0]) > 2 and ds[0][2].get("s") == "assign":
+        rv = ds[0][2]["rv"]
+        if rv["r"] == "use" and rv["op"]["k"] in ("copy", "move") and not rv["op"]["place"]["proj"]:
+            r = _root_local(pr, rv["op"], hops + 1)
+            return r if r is not None else l
+    return l
+
+
 def _same_ok(pr, t, c, same):
     for (ti, ri) in same:
         if ti >= len(t.term["args"]) or ri >= len(c.term["args"]):
             return False
         if pr.operand(t.term["args"][ti]) != pr.operand(c.term["args"][ri]):
+            return False
+        # the same expression evaluated at two different times (`self.fat.len()` before and after a push) reads
+        # the same; when both operands are plain variables they must also be the same variable
+        a, b = _root_local(pr, t.term["args"][ti]), _root_local(pr, c.term["args"][ri])
+        if a is not None and b is not None and a != b:
             return False
     return True
 
